@@ -40,6 +40,12 @@ class CellRef:
     def __repr__(s): return "cell(%r,%r)" % (s.row, s.col)
 
 
+class ChunkCur:
+    """chunks(n) / chunks_mut(n) over a slice: the next chunk is number `pos`"""
+    def __init__(s, sl, n, pos): s.sl, s.n, s.pos = sl, n, pos
+    def __repr__(s): return "chunks(%r by %r @%r)" % (s.sl, s.n, s.pos)
+
+
 class St:
     def __init__(s): s.env = {}; s.conds = []; s.acc = []; s.notes = []
     def fork(s):
@@ -174,6 +180,27 @@ class Ev:
             if ref0 is not None: P.env[ref0.root] = newc
             P.acc.append(("nth", row, t["span"]["lo"]))
             return [(P, Adt("Option", "Some", [RowRef(row)]))]          # None => unwrap panics: that is the bounds check
+        if isinstance(a0, ChunkCur) and name in ("nth", "next") and (fn.get("trait") or "").endswith("Iterator"):
+            k = args[1] if name == "nth" else ZERO
+            if not isinstance(k, Poly): raise Inconclusive("chunks nth(%r)" % (k,))
+            i = a0.pos + k
+            newc = ChunkCur(a0.sl, a0.n, i + ONE)
+            lo = a0.sl.lo + i * a0.n
+            outs = []
+            # full chunk, short last chunk, or nothing left
+            for conds_, val in (([Cond("<=", (i + ONE) * a0.n - a0.sl.len())], Adt("Option", "Some", [Slice(lo, lo + a0.n)])),
+                                ([Cond(">", (i + ONE) * a0.n - a0.sl.len()), Cond("<", i * a0.n - a0.sl.len())], Adt("Option", "Some", [Slice(lo, a0.sl.hi)])),
+                                ([Cond(">=", i * a0.n - a0.sl.len())], Adt("Option", "None", []))):
+                if any(decide(P.conds, c) is False for c in conds_): continue
+                Q = P.fork()
+                Q.conds += [c for c in conds_ if decide(P.conds, c) is None]
+                if ref0 is not None: Q.env[ref0.root] = newc
+                outs.append((Q, val))
+            return outs
+        if isinstance(a0, Unknown) and a0.tag == "iter":
+            # an element iterator the engine does not step through: its footprint was recorded when it was created
+            if name in ("next", "next_back", "nth", "nth_back", "last"): return [(P, Adt("Option", "None", []))]
+            return [(P, Unknown("iter") if name not in ("for_each", "count") else Tup([]))]
         if isinstance(a0, RowRef):
             if name == "swap_with_slice" and isinstance(args[1], RowRef):
                 P.acc.append(("swaprows", a0.row, args[1].row, t["span"]["lo"])); return [(P, Tup([]))]
@@ -195,7 +222,29 @@ class Ev:
                 r = s.sub(sl, args[1]); P.acc.append(("unchecked", name, sl, r, t["span"]["lo"])); return [(P, r)]
             if name in ("index", "index_mut"):
                 r = s.sub(sl, args[1]); P.acc.append(("checked", name, sl, r, t["span"]["lo"])); return [(P, r)]
-            if name in ("as_mut_ptr", "as_ptr"): return [(P, Unknown("ptr"))]
+            if name in ("as_mut_ptr", "as_ptr"): return [(P, Adt("ptr", "ptr", [sl]))]
+            if name in ("chunks", "chunks_mut") and len(args) == 2 and isinstance(args[1], Poly): return [(P, ChunkCur(sl, args[1], ZERO))]
+            if name == "iter_mut":
+                # hands out a mutable reference to every element of the slice: the whole slice is the write footprint
+                P.acc.append(("mutate", name, sl, sl, t["span"]["lo"])); return [(P, Unknown("iter"))]
+            if name == "iter": return [(P, Unknown("iter"))]
+            # safe mutation of whole (sub)slices: the write footprint, judged for confinement on strided receivers
+            if name == "swap_with_slice" and len(args) == 2 and isinstance(args[1], Slice):
+                P.acc.append(("mutate", name, sl, sl, t["span"]["lo"])); P.acc.append(("mutate", name, args[1], args[1], t["span"]["lo"]))
+                P.acc.append(("samelen", name, sl, args[1], t["span"]["lo"]))
+                return [(P, Tup([]))]
+            if name in ("fill", "fill_with", "reverse", "rotate_left", "rotate_right", "copy_from_slice", "clone_from_slice", "sort", "sort_unstable", "sort_by", "sort_unstable_by"):
+                P.acc.append(("mutate", name, sl, sl, t["span"]["lo"])); return [(P, Tup([]))]
+            if name == "swap" and len(args) == 3 and isinstance(args[1], Poly) and isinstance(args[2], Poly):
+                P.acc.append(("checked", name, sl, Elem(sl.lo + args[1]), t["span"]["lo"]))
+                P.acc.append(("mutate", name, sl, Slice(sl.lo + args[1], sl.lo + args[1] + ONE), t["span"]["lo"]))
+                P.acc.append(("mutate", name, sl, Slice(sl.lo + args[2], sl.lo + args[2] + ONE), t["span"]["lo"]))
+                return [(P, Tup([]))]
+        if name in ("swap_nonoverlapping", "copy_nonoverlapping", "copy") and path.startswith("core::ptr") and len(args) == 3 and isinstance(args[2], Poly):
+            for a in args[:2]:
+                if isinstance(a, Adt) and a.name == "ptr" and isinstance(a.f[0], Slice):
+                    P.acc.append(("mutate", name, a.f[0], Slice(a.f[0].lo, a.f[0].lo + args[2]), t["span"]["lo"]))
+            return [(P, Tup([]))]
         if path in ("core::ops::Index::index", "core::ops::IndexMut::index_mut") and isinstance(a0, Slice):
             r = s.sub(a0, args[1]); P.acc.append(("checked", name, a0, r, t["span"]["lo"])); return [(P, r)]
         if name in ("min", "max", "abs_diff") and len(args) == 2 and isinstance(args[0], Poly) and isinstance(args[1], Poly) \
@@ -213,6 +262,8 @@ class Ev:
             x, y = args
             if isinstance(x, RefTo) and isinstance(y, RefTo):
                 P.env[x.root], P.env[y.root] = P.env[y.root], P.env[x.root]; return [(P, Tup([]))]
+        if path == "core::num::<impl usize>::checked_sub" and isinstance(args[0], Poly) and isinstance(args[1], Poly):
+            return [(P, Gamma(Cond(">=", args[0] - args[1]), Adt("Option", "Some", [args[0] - args[1]]), Adt("Option", "None", [])))]
         if path in ("core::num::<impl usize>::checked_mul", "core::num::<impl usize>::checked_add"):
             res = args[0] * args[1] if name == "checked_mul" else args[0] + args[1]
             return [(P, Gamma(Cond("natom", atom="ovf(%r)" % (res,)), Adt("Option", "Some", [res]), Adt("Option", "None", [])))]
@@ -231,6 +282,8 @@ class Ev:
                     Q = P.fork(); Q.conds.append(v.cond.neg()); s.out.append((Q, ("panic",)))
                 return outs
             if isinstance(v, Adt) and v.variant == "Some": return [(P, v.f[0])]
+            if isinstance(v, Adt) and v.variant == "None":
+                s.out.append((P, ("panic",))); return []
             raise Inconclusive("unwrap of %r" % (v,))
         if name in ("ptr_swap", "swap", "swap_nonoverlapping") and path.startswith("core::ptr"): return [(P, Tup([]))]
         if path.startswith("core::ptr::") or path.startswith("core::fmt") : return [(P, Unknown("ptr"))]
@@ -297,6 +350,21 @@ class Ev:
             if isinstance(d, tuple) and d[0] == "discr":
                 v = d[1]
                 if isinstance(v, Adt): return s.step(P, tmap.get({"None": 0, "Some": 1, "Less": -1 % 256, "Equal": 0, "Greater": 1}.get(v.variant, 0), t["otherwise"]), n + 1)
+                if isinstance(v, Gamma):
+                    # an Option computed under a condition (checked_sub / checked_mul): decide it here, on both feasible sides
+                    for c, val in ((v.cond, v.a), (v.cond.neg(), v.b)):
+                        dec = decide(P.conds, c)
+                        if dec is False: continue
+                        Q = P.fork()
+                        if dec is None: Q.conds.append(c)
+                        def repl(x):
+                            if x is v or (isinstance(x, Gamma) and repr(x) == repr(v)): return val
+                            if isinstance(x, Tup): return Tup([repl(y) for y in x.f])
+                            return x
+                        for loc in list(Q.env):
+                            Q.env[loc] = repl(Q.env[loc])
+                        s.step(Q, tmap.get({"None": 0, "Some": 1}.get(val.variant, 0), t["otherwise"]), n + 1)
+                    return
                 raise Inconclusive("discr of %r" % (v,))
             if isinstance(d, Cond):
                 for truth, c in ((True, d), (False, d.neg())):
@@ -306,6 +374,23 @@ class Ev:
                     if dec is None: Q.conds.append(c)
                     tgt = (t["otherwise"] if 0 in tmap else tmap.get(1)) if truth else tmap.get(0, t["otherwise"])
                     s.step(Q, tgt, n + 1)
+                return
+            if isinstance(d, Poly):
+                # integer match: one arm per listed value, everything else on `otherwise`
+                rest = P
+                for vconst, tgt in sorted(tmap.items()):
+                    eq = Cond("==", d - Poly.const(vconst))
+                    dec = decide(rest.conds, eq)
+                    if dec is not False:
+                        Q = rest.fork()
+                        if dec is None: Q.conds.append(eq)
+                        s.step(Q, tgt, n + 1)
+                    if dec is True:
+                        rest = None
+                        break
+                    if dec is None:
+                        rest = rest.fork(); rest.conds.append(eq.neg())
+                if rest is not None: s.step(rest, t["otherwise"], n + 1)
                 return
             raise Inconclusive("switch on %r" % (d,))
         if k in ("unreachable", "resume"): return
@@ -424,8 +509,11 @@ def infeasible(conds, sym):
     R_, C_ = sym.get("R"), sym.get("C")
     if R_ is None or C_ is None:
         return False
-    rz = decide(conds, Cond("==", R_)) is True
-    cz = decide(conds, Cond("==", C_)) is True
+    def zero(dim):
+        # dim == 0, dim <= 0 or dim < 1 (dimensions are unsigned)
+        return decide(conds, Cond("==", dim)) is True or decide(conds, Cond("<=", dim)) is True or decide(conds, Cond("<", dim - ONE)) is True
+    rz = zero(R_)
+    cz = zero(C_)
     rnz = decide(conds, Cond(">", R_)) is True or decide(conds, Cond("!=", R_)) is True
     cnz = decide(conds, Cond(">", C_)) is True or decide(conds, Cond("!=", C_)) is True
     # x < C  implies C > 0
@@ -551,7 +639,27 @@ def r_layout(f):
             if infeasible(P.conds, sym):
                 ninfeasible += 1
                 continue
+            knd = kind.split("::")[-1]
+            touched = []
             for a in P.acc:
+                if a[0] == "mutate" and knd == "TooDeeViewMut" and isinstance(a[3], Slice):
+                    # confinement: a mutated range lies inside the window part of one row: [q*S + c0, q*S + c0 + w), c0 + w <= C, q < R
+                    nacc_fn += 1
+                    cc = add_invariant(P.conds, sym)
+                    cs = saturate(cc)
+                    q, rest = split_stride(a[3].lo, sym["S"])
+                    w = a[3].hi - a[3].lo
+                    okc = (decide(cc, Cond("<", q - sym["R"])) is True or decide(cs, Cond("<", q - sym["R"])) is True) and \
+                          (decide(cc, Cond("<=", rest + w - sym["C"])) is True or decide(cs, Cond("<=", rest + w - sym["C"])) is True) and \
+                          (rest == ZERO or decide(cc, Cond(">=", rest)) is True or decide(cs, Cond(">=", rest)) is True or all(v > 0 for v in rest.t.values()))
+                    emp = w == ZERO or decide(cc, Cond("<=", w)) is True
+                    if not (okc or emp):
+                        bad.append((("mutate", a[1], a[2], a[3], a[4]), P.conds))
+                    elif not emp:
+                        touched.append((q, rest, w))
+                if a[0] == "mutate" and knd == "TooDee" and isinstance(a[3], Slice):
+                    q, rest = split_stride(a[3].lo, sym["S"])
+                    touched.append((q, rest, a[3].hi - a[3].lo))
                 if a[0] != "unchecked":
                     continue
                 nacc_fn += 1
@@ -574,6 +682,15 @@ def r_layout(f):
                     j = j and j + " [shape only: hypotheses are the unsafe caller's obligation]"
                 if j is None:
                     bad.append((a, conds))
+            if b.name == "swap_rows" and touched and knd in ("TooDee", "TooDeeViewMut"):
+                # exactly the two named rows, whole: {q} == {r1, r2} (parameters, in either order), columns 0..C
+                pn_ = [Poly.atom(nm_) for loc_, nm_ in sorted(b.param_names().items()) if b.locals[loc_] == "usize"]
+                cc = saturate(add_invariant(P.conds, sym))
+                def same(x, y): return x == y or decide(cc, Cond("==", x - y)) is True
+                rows_ok = len(pn_) == 2 and len(touched) == 2 and all(r_ == ZERO and same(w_, sym["C"]) for _, r_, w_ in touched) and \
+                    ((same(touched[0][0], pn_[0]) and same(touched[1][0], pn_[1])) or (same(touched[0][0], pn_[1]) and same(touched[1][0], pn_[0])))
+                if not rows_ok:
+                    bad.append((("mutate", "swap_rows-rows", None, "rows %s" % ", ".join("row %r cols %r..+%r" % tt for tt in touched), b.line), P.conds))
             # returned aggregate literals
             if oc[0] == "ret" and isinstance(oc[1], Obj) and oc[1].kind in LAYOUT:
                 okl, what = literal_ok(oc[1].kind, oc[1].fields, LAYOUT[oc[1].kind], sym, P.conds)
@@ -605,6 +722,9 @@ def r_layout(f):
                 continue
             seenk.add(desc)
             cs = ", ".join(sorted(repr(c) for c in conds))
+            if a[0] == "mutate":
+                R.fail(b.ident, desc, "%s: %s writes %s, which is not the window part of the named row(s) under the path facts {%s}: cells outside the view / of another row are changed" % (b.ident, a[1], a[3], cs), "%s:%s" % (b.file, a[4]))
+                continue
             R.fail(b.ident, desc, "%s: unchecked %s of %r is not covered by any layout lemma under the path facts {%s}: the access can lie outside the backing slice" % (b.ident, a[1], a[3], cs), "%s:%s" % (b.file, a[4]))
         seenl = set()
         for okl, what in lits:
